@@ -273,11 +273,12 @@ def gen(ctx):
             A[:3, 3], B[:3, 3] = rng.normal(size=3) * scale, rng.normal(size=3) * scale
             c.update({"laws": True, "A": H(A), "B": H(B)})
         cases.append(c)
-    for i in range(8 * mult):
-        ref = mk_poses(rng, 6, 1.0, 0.0)
-        est = mk_poses(rng, 7, 1.0, 0.0)
+    for i in range(16 * mult):   # unequal lengths: either ordering, pairs from either trajectory, incl. a 1-pose partner
+        na, nb = [(6, 7), (7, 6), (9, 4), (4, 9), (5, 1), (1, 5), (3, 2), (2, 3)][i % 8]
+        ref = mk_poses(rng, na, 1.0, 0.0)
+        est = mk_poses(rng, nb, 1.0, 0.0)
         cases.append({"kind": "rpe", "rel": RELS[i % 7], "ref": [H(p) for p in ref], "est": [H(p) for p in est],
-                      "delta": 1, "delta_unit": "frames", "tol": 0.1, "all_pairs": False, "from_ref": False})
+                      "delta": 1, "delta_unit": "frames", "tol": 0.1, "all_pairs": bool((i // 8) % 2), "from_ref": bool(i % 2 == 0) ^ bool((i // 16) % 2)})
     for i in range(ctx.n(28, 140)):
         n = int(rng.integers(8, 40))
         ref = mk_poses(rng, n, 1.0, 0.0, rot_mode="smooth")
